@@ -10,7 +10,7 @@ CONSTANTS
   W = 4
   Lens <- LensSmall
   Pairs <- PairsSmall
-  MaxN = 2
+  MaxN = 3
   MaxSections = 3
   Depth = 6
   Modes <- MCModes
